@@ -502,6 +502,10 @@ def write_events(kind):
         ev.append(["set", "v", "position", {"time": ["l", [1, 0]]}, "dimarray_other"])
         ev.append(["set", "v", "position", {"time": ["sl", 0, 2, None]}, "dimarray_other"])
         ev.append(["set", "t1", "position", {"time": ["l", [1]]}, "dimarray_other"])
+        # ... the unlimited dimension addressed by a FULL slice (one column assigned), and a one-row piece broadcast over existing rows
+        ev.append(["set", "v", "label", {"x": ["s", 10]}, "dimarray_other"])
+        ev.append(["set", "v", "position", {"time": ["sl", 0, 2, None]}, "dimarray_row"])
+        ev.append(["set", "v", "position", {"time": ["sl", 1, None, None]}, "dimarray_row"])
     ev.append(["reopen"])
     return ev
 
@@ -618,6 +622,10 @@ class WSpace(object):
                         shape = sel.shape if isinstance(sel, DimArray) else ()
                         if rk == "dimarray":
                             rhsv = DimArray(_rhs("array", shape, n), axes=[ax.copy() for ax in sel.axes]) if isinstance(sel, DimArray) else _rhs("scalar", (), n)
+                        elif rk == "dimarray_row":
+                            first = sel.axes[0]
+                            rowax = Axis(np.array([py(first.values[0]) + 0.5], dtype=first.values.dtype), first.name)
+                            rhsv = DimArray(_rhs("array", (1,) + tuple(shape[1:]), n), axes=[rowax] + [ax.copy() for ax in sel.axes[1:]])
                         elif rk == "dimarray_other":
                             other = [Axis(np.array([(l + "_") if isinstance(l, str) else (l + 1 if isinstance(l, int) else l + 0.5) for l in py(ax.values)],
                                                    dtype=ax.values.dtype), ax.name) for ax in sel.axes]
